@@ -45,8 +45,18 @@ func (p *ruleSetProcessor) isVersionSupported(version string) bool {
 
 func (p *ruleSetProcessor) loadRules(ruleSet *config.RuleSet) ([]rule.Rule, error) {
 	rules := make([]rule.Rule, len(ruleSet.Rules))
+	ids := make(map[string]struct{}, len(ruleSet.Rules))
 
 	for idx, rc := range ruleSet.Rules {
+		// rules are identified by their ids. With two rules sharing an id, the rule set
+		// could neither be updated, nor removed anymore
+		if _, present := ids[rc.ID]; present {
+			return nil, errorchain.NewWithMessagef(heimdall.ErrConfiguration,
+				"rule ID='%s' is used by more than one rule of the rule set", rc.ID)
+		}
+
+		ids[rc.ID] = struct{}{}
+
 		rul, err := p.f.CreateRule(ruleSet.Version, ruleSet.Source, rc)
 		if err != nil {
 			return nil, errorchain.NewWithMessagef(heimdall.ErrInternal,
